@@ -145,7 +145,7 @@ Print Assumptions C18_template_group_reference.
     text, (2) every integer expression of Python integer arithmetic, (3) every replacement
     template.  MISSING (fuzzed by harness/c18.py, not proved): that no OTHER validator, symbol
     resolution, matcher, transformer, program or actor code raises a non-HardError exception on
-    some text - the open known findings KF-C18-2 .. KF-C18-12 (and the repaired FIX-C18-3 .. FIX-C18-7) are counterexamples of exactly this
+    some text - the open known findings KF-C18-2 .. KF-C18-13 (and the repaired FIX-C18-3 .. FIX-C18-7) are counterexamples of exactly this
     missing part (or of termination / BaseException, which the routing theorems put outside). *)
 Theorem C18_text_errors_never_internal_partial :
   (forall (m : tc_status) (e : exc), wf_exc e = true -> subclass (e_cls e) EException = true ->
